@@ -298,6 +298,14 @@ def run(tier):
     account_proofs(ck, br)
     if not br.ok:
         return ck.finish()
+    core(ck, tier, ("corpus", "A", "B", "C", "D", "E", "F"))
+    return ck.finish()
+
+
+def core(ck, tier, fam):
+    """Parser correspondence (implementation vs extracted Lang/Parser.v), reporting into `ck`.
+    `fam`: which case families to run; used by ./check CPARSER (all) and as the parser part of
+    ./check C01 (corpus, A, C, E, F), C08 (corpus, D) and C09 (B, D)."""
     quick = tier == "quick"
     rng = ck.rng
     n = 4 if quick else 5
@@ -314,102 +322,111 @@ def run(tier):
         "non-trivial = accepted with >= 3 tokens, or rejected at a position > 0")
     t0 = time.time()
     # ---- corpus
-    b = Batch(ck, "corpus")
-    for c in common.load_corpus(PID):
-        b.add(c.get("entry", 0), from_cps(c["text"]), c.get("max_tokens"), c.get("xfa", False), c.get("xdd", False))
-    res = b.run()
-    limits_and_unparse(ck, res, rng)
+    if "corpus" in fam:
+        b = Batch(ck, "corpus")
+        for c in common.load_corpus(PID):
+            b.add(c.get("entry", 0), from_cps(c["text"]), c.get("max_tokens"), c.get("xfa", False), c.get("xdd", False))
+        res = b.run()
+        limits_and_unparse(ck, res, rng)
     # ---- (A) lexical alphabet
-    b = Batch(ck, "exh_lex")
-    for s in common.strings_upto(lexcorr.LEX_ALPHA16, n):
-        t = "".join(s)
-        for w in range(5):
-            b.add(w, t)
-    res_a = b.run()
-    limits_and_unparse(ck, res_a, rng, frac=0.02 if quick else 0.01)
-    del res_a
-    # ---- (B) token alphabet
-    b = Batch(ck, "exh_tok")
-    for s in common.strings_upto(TOK_ALPHA, n):
-        t = " ".join(s)
-        b.add(0, t)
-        if len(s) <= n - 1:
-            for w in (1, 2, 3):
+    if "A" in fam:
+        b = Batch(ck, "exh_lex")
+        for s in common.strings_upto(lexcorr.LEX_ALPHA16, n):
+            t = "".join(s)
+            for w in range(5):
                 b.add(w, t)
-        if len(s) <= 3:
-            for (xfa, xdd) in FLAGS[1:]:
-                b.add(0, t, None, xfa, xdd)
-    res_b = b.run()
-    limits_and_unparse(ck, res_b, rng, frac=0.02 if quick else 0.005)
-    del res_b
+        res_a = b.run()
+        limits_and_unparse(ck, res_a, rng, frac=0.02 if quick else 0.01)
+        del res_a
+    # ---- (B) token alphabet
+    if "B" in fam:
+        b = Batch(ck, "exh_tok")
+        for s in common.strings_upto(TOK_ALPHA, n):
+            t = " ".join(s)
+            b.add(0, t)
+            if len(s) <= n - 1:
+                for w in (1, 2, 3):
+                    b.add(w, t)
+            if len(s) <= 3:
+                for (xfa, xdd) in FLAGS[1:]:
+                    b.add(0, t, None, xfa, xdd)
+        res_b = b.run()
+        limits_and_unparse(ck, res_b, rng, frac=0.02 if quick else 0.005)
+        del res_b
     # ---- (C) coordinates
-    b = Batch(ck, "exh_coord")
-    for s in common.strings_upto(COORD_ALPHA, 5 if quick else 6):
-        b.add(4, "".join(s))
-    res_c = b.run()
-    limits_and_unparse(ck, res_c, rng, frac=0.2)
-    del res_c
+    if "C" in fam:
+        b = Batch(ck, "exh_coord")
+        for s in common.strings_upto(COORD_ALPHA, 5 if quick else 6):
+            b.add(4, "".join(s))
+        res_c = b.run()
+        limits_and_unparse(ck, res_c, rng, frac=0.2)
+        del res_c
     ck.extra["t_exhaustive_s"] = round(time.time() - t0, 1)
-    # ---- (D) generated
-    t1 = time.time()
-    b = Batch(ck, "gen")
     docs = []
-    ndocs = 100 if quick else 600
-    for (xfa, xdd) in FLAGS:
-        for j in range(ndocs):
-            g = gen_doc.Gen(rng, depth=rng.choice([1, 2, 2, 3]), experimental=False)
-            g.exp = xfa
-            lex = g.document()
-            if xdd and not xfa:
-                # directives on directive definitions / directive extensions only
-                g.exp = True
-                lex = lex + g.type_def(ext=rng.random() < 0.3)
-                g.exp = False
-            docs.append((lex, xfa, xdd))
-            text = gen_doc.join_random(lex, rng) if j % 2 else gen_doc.join_min(lex)
-            b.add(0, text, None, xfa, xdd)
-            # the same text under the other flag settings (flags off = the experimental syntax is an error)
-            fx2 = rng.choice(FLAGS)
-            if fx2 != (xfa, xdd):
-                b.add(0, text, None, *fx2)
-        for j in range(ndocs):
-            g = gen_doc.Gen(rng, depth=3, experimental=xfa)
-            c = rng.random() < 0.5
-            b.add(2 if c else 1, gen_doc.join_random(g.value(c), rng), None, xfa, xdd)
-            if not c:
-                b.add(2, gen_doc.join_min(g.value(False)), None, xfa, xdd)
-            b.add(3, gen_doc.join_random(g.type_ref(3), rng), None, xfa, xdd)
-    res_d = b.run()
-    limits_and_unparse(ck, res_d, rng)
-    del res_d
-    ck.extra["t_generated_s"] = round(time.time() - t1, 1)
+    # ---- (D) generated
+    if "F" in fam or "D" in fam:
+        t1 = time.time()
+        b = Batch(ck, "gen")
+        ndocs = 100 if quick else 600
+        for (xfa, xdd) in FLAGS:
+            for j in range(ndocs):
+                g = gen_doc.Gen(rng, depth=rng.choice([1, 2, 2, 3]), experimental=False)
+                g.exp = xfa
+                lex = g.document()
+                if xdd and not xfa:
+                    # directives on directive definitions / directive extensions only
+                    g.exp = True
+                    lex = lex + g.type_def(ext=rng.random() < 0.3)
+                    g.exp = False
+                docs.append((lex, xfa, xdd))
+                text = gen_doc.join_random(lex, rng) if j % 2 else gen_doc.join_min(lex)
+                b.add(0, text, None, xfa, xdd)
+                # the same text under the other flag settings (flags off = the experimental syntax is an error)
+                fx2 = rng.choice(FLAGS)
+                if fx2 != (xfa, xdd):
+                    b.add(0, text, None, *fx2)
+            for j in range(ndocs):
+                g = gen_doc.Gen(rng, depth=3, experimental=xfa)
+                c = rng.random() < 0.5
+                b.add(2 if c else 1, gen_doc.join_random(g.value(c), rng), None, xfa, xdd)
+                if not c:
+                    b.add(2, gen_doc.join_min(g.value(False)), None, xfa, xdd)
+                b.add(3, gen_doc.join_random(g.type_ref(3), rng), None, xfa, xdd)
+        res_d = b.run()
+        limits_and_unparse(ck, res_d, rng)
+        del res_d
+        ck.extra["t_generated_s"] = round(time.time() - t1, 1)
     # ---- (E) fixture prefixes
-    t2 = time.time()
-    b = Batch(ck, "prefix")
-    fxs = gen_doc.fixtures()
-    for fi, f in enumerate(fxs):
-        step = 1 if (not quick or fi == 0) else 4
-        for i in range(0, len(f) + 1, step):
-            b.add(0, f[:i], None, True, True)
-        b.add(0, f, None, False, False)
-    res_e = b.run()
-    limits_and_unparse(ck, res_e, rng, frac=0.03 if quick else 0.1)
-    del res_e
-    ck.extra["t_prefixes_s"] = round(time.time() - t2, 1)
+    if "E" in fam:
+        t2 = time.time()
+        b = Batch(ck, "prefix")
+        fxs = gen_doc.fixtures()
+        for fi, f in enumerate(fxs):
+            step = 1 if (not quick or fi == 0) else 4
+            for i in range(0, len(f) + 1, step):
+                b.add(0, f[:i], None, True, True)
+            b.add(0, f, None, False, False)
+        res_e = b.run()
+        limits_and_unparse(ck, res_e, rng, frac=0.03 if quick else 0.1)
+        del res_e
+        ck.extra["t_prefixes_s"] = round(time.time() - t2, 1)
     # ---- (F) mutants
-    t3 = time.time()
-    b = Batch(ck, "mutant")
-    for (lex, xfa, xdd) in docs:
-        if len(lex) > 160:
-            continue
-        for l in mutants(lex, rng, 6 if quick else 10) + name_mutants(lex, rng, 6 if quick else 10):
-            b.add(0, gen_doc.join_min(l), None, xfa, xdd)
-    res_f = b.run()
-    limits_and_unparse(ck, res_f, rng, frac=0.3)
-    del res_f
-    ck.extra["t_mutants_s"] = round(time.time() - t3, 1)
-    ck.exhaustive = {"lexical_alphabet_len": n, "token_alphabet_len": n, "coordinate_len": 5 if quick else 6}
-    return ck.finish()
+    if "F" in fam:
+        t3 = time.time()
+        b = Batch(ck, "mutant")
+        for (lex, xfa, xdd) in docs:
+            if len(lex) > 160:
+                continue
+            for l in mutants(lex, rng, 6 if quick else 10) + name_mutants(lex, rng, 6 if quick else 10):
+                b.add(0, gen_doc.join_min(l), None, xfa, xdd)
+        res_f = b.run()
+        limits_and_unparse(ck, res_f, rng, frac=0.3)
+        del res_f
+        ck.extra["t_mutants_s"] = round(time.time() - t3, 1)
+    ck.extra["parser_exhaustive"] = {"families": list(fam), "lexical_alphabet_len": n, "token_alphabet_len": n, "coordinate_len": 5 if quick else 6}
+    ck.extra["parser_rule"] = ck.rule
+
+
 
 
 def replay(path):
